@@ -10,3 +10,8 @@ impl Fiber {
     forall|k: int| 0 <= k < self.exception_handlers@.len() ==> 1 <= (#[trigger] self.exception_handlers@[k]).call_frame_depth <= self.frames@.len()
   }
 }
+
+/// the instruction pointer the j-th traceback line (innermost first) must be computed from
+pub open spec fn line_ip(f: &Fiber, j: int) -> int {
+  if j < f.backtrace_ips@.len() { ip_val(f.backtrace_ips@[j]) } else { frame_ip(f.frames@[f.frames@.len() - 1 - j]) }
+}
